@@ -118,7 +118,11 @@ CFG = {
         "a limiter is removed only when no bucket of its key's history is inside the retained window at the key's next event (SafeExpiry)",
         "buckets_count >= 1, bucket_interval > 0, at most 256 rules (the rule index byte)",
     ],
-    "signatures": {},
+    "signatures": {
+        # known finding C16-rule-index-byte-wraps: only configurations with more rules than the
+        # rule index byte of the limiter key can tell apart
+        "more_than_256_rules": lambda c, i, m, k: len(c) > 4 and c[4].isdigit() and int(c[4]) >= k.get("min_rules", 257),
+    },
     "chunk": 4000,
     "timeout": 900,
 }
